@@ -28,21 +28,21 @@ CLAIMED.update({
     "C02": _trace("TLA+ filter semantics (Eval!Test) evaluated by TLC on recorded find() calls (trace validation)",
                   "Filter queries built from ~55 atoms (existence tests on '@'/'$' queries, comparisons, calls, nested filters to depth 3) under ! && || and parentheses, on arrays/objects with 18 child kinds (0,false,'',null,[],{},...) and on scalars, plus seeded random filter queries; every result validated by TLC.", "4 (C02)"),
     "C03": _trace("TLA+ recursive-descent transcription of the RFC 9535 ABNF + typing (Syntax/Typing.tla); compile() outcomes trace-validated by TLC",
-                  "TLC parses every candidate text itself and decides Valid; a valid text that compile() rejects is a violation. Candidates: seeds, repository test queries, seeded generator output with every optional lexical form (blank space at every S, both quotes, every escape form, shorthand/bracket, number spellings, non-BMP names).", "4 (C03)"),
+                  "TLC parses every candidate text itself and decides Valid; a valid text that compile() rejects is a violation. Candidates: seeds, repository test queries, seeded generator output with every optional lexical form (blank space at every S, both quotes, every escape form, shorthand/bracket, number spellings, non-BMP names); every sentence of the ABNF derivation machine (Deriv.tla, T3); the valid ones among all unit texts enumerated by MC_Parser.tla, where TLC also checks T15 (the implementation-shaped lexer/stream/parser model accepts them and builds the query RFC 9535 assigns).", "4 (C03)"),
     "C04": _trace("TLA+ parser (Syntax.tla) as the membership oracle; compile() outcomes on enumerated short strings, lexeme sequences and single-edit neighbours trace-validated by TLC",
-                  "All strings '$'+w over a 27-symbol alphabet (|w|<=3 quick / 4 thorough), seeded lexeme sequences, single-edit neighbours of valid queries; a text outside the grammar that compile() accepts is a violation.", "4 (C04)"),
+                  "All strings '$'+w over a 27-symbol alphabet (|w|<=3 quick / 4 thorough), seeded lexeme sequences, single-edit neighbours of valid queries, every text prefix u1..un suffix over six families of token-like units enumerated by TLC (MC_Parser.tla, n<=3 quick / 5 thorough; T15 checked on the way); a text outside the grammar that compile() accepts is a violation.", "4 (C04)"),
     "C05": _trace("TLA+ well-typedness and integer-range judgement (Typing.tla); compile() on fresh environments with probe functions of every signature, trace-validated by TLC",
-                  "All 39 signatures over {V,L,N}^n->type (n<=2) x argument shapes x syntactic positions, unknown names, wrong arity, integers at lo-1..hi+1 for five configured ranges; compile() must agree with Typing.tla and no function body may run during compile().", "4 (C05)"),
+                  "All 39 signatures over {V,L,N}^n->type (n<=2) x argument shapes x syntactic positions, unknown names, wrong arity, integers at lo-1..hi+1 for five configured ranges, registries installed by mutation and by assignment, the built-in functions over all unit texts of the 'calls' family of MC_Parser.tla; compile() must agree with Typing.tla and no function body may run during compile().", "4 (C05)"),
     "C06": _trace("TLA+ comparison table (JsonVal!Cmp) model-checked for its algebraic shape (T5) and used by TLC to validate recorded comparisons",
-                  "Ordered pairs over 50 comparands of every kind (incl. bool-vs-number leaves at depth, permuted members, non-BMP strings, nothing) x 6 operators x every producer of each side; T5 (equivalence, strict order, derived operators) checked exhaustively on the spec's universe.", "4 (C06)"),
+                  "Ordered pairs over 50 comparands of every kind (incl. bool-vs-number leaves at depth, permuted members, non-BMP strings, nothing) x 6 operators x every producer of each side, and all comparands as siblings under one container with the child itself as a comparand; T5 (equivalence, strict order, derived operators) checked exhaustively on the spec's universe.", "4 (C06)"),
     "C10": _trace("TLA+ function-call semantics (Eval!ArgFor/Builtin); probe functions log received arguments; records trace-validated by TLC",
                   "Built-ins over 20 child kinds; probes of all 39 signatures log what they receive per declared parameter type; TLC compares logged argument lists (as sets) with Eval!ArgFor and the selection with the declared result type's use.", "4 (C10)"),
     "C11": _trace("TLA+ I-Regexp grammar and set-of-end-positions matcher (IRegexp.tla), T13 model-checked; match()/search() records trace-validated by TLC",
                   "Patterns from the RFC 9485 constructs (classes with dialect-special characters, category escapes on the model alphabet, quantifier forms), invalid patterns, non-string arguments x subjects over the special alphabet; both functions, pattern as literal and as query.", "4 (C11)"),
     "C12": _trace("TLA+ parser + normal form (Canon.tla); str() round-trip records trace-validated by TLC",
-                  "For each compiled query: str() text must be Valid, have the same normal form as the original (or select the same nodes on a witness pool), be a fixpoint of str(compile(.)), with canonical string literals.", "4 (C12)"),
+                  "For each compiled query: str() text must be Valid, have the same normal form as the original (or select the same nodes on a witness pool), be a fixpoint of str(compile(.)), with canonical string literals, and the compiled serialisation must behave like the compiled original on the witness documents.", "4 (C12)"),
     "C13": _trace("outcome-class validation of compile()/find() records by TLC (totality clause), inputs from the syntax corpora plus long/deep inputs",
-                  "Valid, almost valid and garbage texts incl. random Unicode and 1,024-character / nesting-32 inputs; every compiled query evaluated on every JSON kind; outcome must be return or a JSONPathError, error string producible, within a wall-clock guard.", "4 (C13)"),
+                  "Valid, almost valid and garbage texts incl. random Unicode and 1,024-character / nesting-32 inputs; every query that compiles (ill-typed ones that should not have included) evaluated on every JSON kind; outcome must be return or a JSONPathError, error string producible, within a wall-clock guard.", "4 (C13)"),
     "C19": _trace("TLA+ Position/Offset (ErrorPos.tla, T14 model-checked); recorded (text, offset, printed line/column) trace-validated by TLC",
                   "Every rejection over multi-line corpora (LF/CR/CRLF injected at blank-space positions): offset within the text and printed line/column equal to Position(text, offset).", "4 (C19)"),
 })
@@ -53,10 +53,10 @@ CLAIMED.update({
     "C09": _trace("TLA+ string-literal decoder as a character-stepping state machine (StringLit.tla) model-checked against the functional decoder (T7a-c); every machine state replayed into compile(); per-code-point ranges and surrogate boundary literals trace-validated by TLC",
                   "TLC explores the decoder machine over a 29-symbol alphabet (length 3/4), a 13-symbol escape alphabet (length 4/6) and by simulation over the hex/surrogate alphabet (length 13); each state (body, expected decoded string or reject) is replayed: accept/reject and the decoded name, observed through name selection and string comparison. Every code point raw / \\uXXXX lower / upper / surrogate pair in both quote styles, range-compressed.", "4 (C09)"),
     "C14": dict(technique="TLA+ state machine of the public API (System.tla): TLC enumerates all histories to a depth (abstract state + last operation) and random walks; each history replayed step by step on the real objects",
-                text="Every history of {compile, apply, find via environment / module, register a function, create an environment subclass} over 3 environments x 6 queries x 3 documents up to 3 (quick) / 4 (thorough) operations, plus random walks of 25 operations, carries the expected response of each operation computed by Eval.tla; the real objects are stepped along each: response, deep snapshots of all documents and every environment's registry compared after every operation.",
+                text="Every history of {compile, apply, find via environment / module, register a function, create an environment subclass} over 3 environments x 6 queries x 3 documents up to 3 (quick) / 4 (thorough) operations, plus random walks of 25 operations, carries the expected response of each operation computed by Eval.tla; the real objects are stepped along each: response, deep snapshots of all documents and every environment's registry compared after every operation. History independence is also recorded directly: the same (query, document) on a fresh environment and inside long histories on long-lived ones (declared don't-care patterns included) and a stream of short-lived documents through one compiled query, validated by TLC (all outcomes coincide, and equal Eval!Find where the value is pinned).",
                 note=_TRACE_NOTE + " Hidden state is only detectable if it changes a response, a document or a registry within the explored histories.", design_ref="3.8, 4 (C14)"),
     "C15": _trace("entry-point agreement records (7-14 public call paths per query/document) trace-validated by TLC against Eval!Find",
-                  "For valid queries every path must realise Eval!Find's (items, tail): find = apply = list(finditer), find_one = first-or-None; for invalid queries every path raises the same JSONPathError class; recursion-limit environments included.", "4 (C15)"),
+                  "For valid queries every path must realise Eval!Find's (items, tail): find = apply = list(finditer), find_one = first-or-None; for invalid queries every path raises the same JSONPathError class; recursion-limit environments included, also reconfigured after a query was compiled.", "4 (C15)"),
     "C16": dict(technique="TLA+ state machine of k live iterators (Iters.tla): TLC enumerates every interleaving of next()/abandon (schedule kept in the state); each complete schedule replayed into real iterators; threaded runs trace-validated",
                 text="All interleavings over configurations with 2-3 live iterators (same compiled query, same environment, different environments; filters, nested filters, descendant segments) are replayed item by item; IterIndependence is also a TLC invariant. Threaded runs (2/4/8 threads, switch interval 1e-6, hand-over of one iterator between two threads) are validated as per-iterator sequences, so any merge order is accepted.",
                 note=_TRACE_NOTE + " Pre-emptive thread schedules are sampled, not enumerated.", design_ref="4 (C16)"),
